@@ -10,7 +10,8 @@ C13 — model of delta indexing of a Git repository:
 * `index/eval.go` `indexData.Search`'s `FileTombstones` skip and the branch filter (`Shard.cnt`, `Shard.view`).
 
 Abstraction: a commit is the tree it points to; a tree is an association list path ↦ (blob, mode) with distinct
-paths; paths, blobs and branch names are numbers (interned by the harness).  Go's maps `repos` / `rw.Files`
+paths, whose leaves are files (regular, executable, symlink) or submodule links (mode 3, never indexed: submodule
+indexing is rejected for delta builds); paths, blobs and branch names are numbers (interned by the harness).  Go's maps `repos` / `rw.Files`
 are association lists keyed by (path, blob).  A build writes one shard (ShardMax is not reached).
 -/
 namespace ZoektModel.C13
@@ -19,11 +20,19 @@ abbrev Path := Nat
 abbrev Blob := Nat
 abbrev Branch := Nat
 
-/-- a tree entry that is a file: blob hash and mode (regular / executable / symlink) -/
+/-- a leaf of a tree: object hash and mode (0 regular, 1 executable, 2 symlink; 3 = submodule link, not a file) -/
 structure Ent where
   blob : Blob
   mode : Nat
   deriving Repr, DecidableEq, BEq
+
+/-- go-git's `FileMode.IsFile` on the leaves that occur -/
+def Ent.isFile (e : Ent) : Bool := e.mode != 3
+
+/-- an entry as a file: what `Change.Files` / `Tree.File` give (nil / ErrFileNotFound for a submodule link) -/
+def fileSide : Option Ent → Option Ent
+  | some e => if e.isFile then some e else none
+  | none => none
 
 abbrev Tree := List (Path × Ent)
 
@@ -31,6 +40,12 @@ abbrev Tree := List (Path × Ent)
 def tget : Tree → Path → Option Ent
   | [], _ => none
   | (q, e) :: r, p => if q = p then some e else tget r p
+
+/-- `tree.File(path)`: the file at `p`, if there is one -/
+def fget (t : Tree) (p : Path) : Option Ent := fileSide (tget t p)
+
+/-- content of the file at `p` -/
+def fblob (t : Tree) (p : Path) : Option Blob := (fget t p).map (·.blob)
 
 /-- repository state: the most recent commit of each branch first -/
 abbrev Repo := List (Branch × Tree)
@@ -59,7 +74,7 @@ def addBranch : Files → Path → Blob → Branch → Files
 
 /-- `CollectFiles` for one branch: `handleEntry` over every file entry of the tree -/
 def collectTree (m : Files) (b : Branch) (t : Tree) : Files :=
-  t.foldl (fun m e => addBranch m e.1 e.2.blob b) m
+  t.foldl (fun m e => if e.2.isFile then addBranch m e.1 e.2.blob b else m) m
 
 /-- `prepareNormalBuild`: all branches, in order, into one map -/
 def collect (r : Repo) (brs : List Branch) : Files :=
@@ -77,19 +92,23 @@ def diffTrees (o n : Tree) : List Change :=
   (o.filterMap fun e => if tget n e.1 = some e.2 then none else some ⟨e.1, some e.2, tget n e.1⟩) ++
   (n.filterMap fun e => if tget o e.1 = none then some ⟨e.1, none, some e.2⟩ else none)
 
+/-- body of `for b, currentTree := range branchToCurrentTree`: `currentTree.File(path)`, skip if not found -/
+def addOneBranch (r : Repo) (p : Path) (m : Files) (b : Branch) : Files :=
+  match fget (head r b) p with
+  | some e => addBranch m p e.blob b
+  | none => m
+
 /-- "add ALL versions of the old file (across all branches) to the build" -/
 def addAllBranches (r : Repo) (brs : List Branch) (m : Files) (p : Path) : Files :=
-  brs.foldl (fun m b => match tget (head r b) p with
-    | some e => addBranch m p e.blob b
-    | none => m) m
+  brs.foldl (addOneBranch r p) m
 
 /-- body of `for i, c := range changes` in `prepareDeltaBuild`, for the diff of branch `b` -/
 def applyChange (r : Repo) (brs : List Branch) (b : Branch) (st : Files × List Path) (c : Change) :
     Files × List Path :=
-  let m := match c.new with
+  let m := match fileSide c.new with
     | some e => addBranch st.1 c.path e.blob b
     | none => st.1
-  match c.old with
+  match fileSide c.old with
   | none => (m, st.2)
   | some _ => (addAllBranches r brs m c.path, st.2 ++ [c.path])
 
@@ -123,6 +142,16 @@ def deltaBuild (diff : Tree → Tree → List Change) (idx : Index) (r : Repo) :
   ⟨idx.shards.map (fun s => ⟨s.docs, s.tombs ++ res.2⟩) ++ (if res.1.isEmpty then [] else [⟨res.1, []⟩]),
    idx.brs, r⟩
 
+/-- a modification with a file on one side and a submodule link on the other: `Change.Files` returns neither
+    side; `prepareDeltaBuild` (after the fix) reports it as an error, i.e. falls back to a normal build -/
+def Change.mixed (c : Change) : Bool :=
+  match c.old, c.new with
+  | some o, some n => o.isFile != n.isFile
+  | _, _ => false
+
+def mixedChange (diff : Tree → Tree → List Change) (snap r : Repo) (brs : List Branch) : Bool :=
+  brs.any fun b => (diff (head snap b) (head r b)).any Change.mixed
+
 /-- does a requested delta build go ahead?  (`prepareDeltaBuild`'s fall-backs that involve only the index state) -/
 def deltaOk (idx : Index) (thr : Nat) (brs : List Branch) : Bool :=
   !idx.shards.isEmpty && !(thr > 0 && idx.shards.length > thr) && idx.brs == brs
@@ -130,7 +159,8 @@ def deltaOk (idx : Index) (thr : Nat) (brs : List Branch) : Bool :=
 /-- one `IndexGitRepo` run -/
 def indexRun (diff : Tree → Tree → List Change) (idx : Index) (r : Repo) (delta : Bool) (thr : Nat)
     (brs : List Branch) : Index :=
-  if delta && deltaOk idx thr brs then deltaBuild diff idx r else fullBuild r brs
+  if delta && deltaOk idx thr brs && !mixedChange diff idx.snap r idx.brs then deltaBuild diff idx r
+  else fullBuild r brs
 
 /-- number of documents of `m` with path `p`, content `x`, on branch `b` -/
 def cntFiles (m : Files) (b : Branch) (p : Path) (x : Blob) : Nat :=
